@@ -153,6 +153,15 @@ class Replayer:
     def step(self, a):
         tr = self.tr
         op = a[0]
+        keys = tr.cache_keys() if op in (
+            'gc', 'dropgc', 'swap', 'reorder', 'sift', 'undeclare') else None
+        self._step(a)
+        if keys:
+            tr.cache_witness(keys, k=2)
+
+    def _step(self, a):
+        tr = self.tr
+        op = a[0]
         if op == 'var':
             self.put(a[1], tr.var(a[2]))
         elif op == 'ite':
